@@ -39,7 +39,7 @@ def _f8_absent_level(cfg, sz):
 
 
 PREDS = {'f1_short': _f1_short, 'f2_region': _f2_region, 'f8_absent_level': _f8_absent_level,
-         'f11_tiny': lambda cfg, sz: sz.get('H') == 2 or sz.get('W') == 2}
+         'f11_tiny': lambda cfg, sz: sz.get('H', 9) <= 2 or sz.get('W', 9) <= 2}
 
 
 def in_known(fl, findings):
